@@ -27,14 +27,27 @@ def run():
     plan = [json.loads(json.loads(l)) for l in g["out"].splitlines() if l.startswith('"{')]
     log("[C20] Chain.tla: %d (configuration, query, transport, listener) combinations" % len(plan))
     if not thorough:
-        keep = [p for p in plan if p["nq"] == 0 or p["name"] in (6, 7, 8, 9) or (p["type"] == 255)]
+        keep = [p for p in plan if p["nq"] < 1 or p["class"] != 1 or p["name"] in (6, 7, 8, 9) or (p["type"] == 255)]
         rest = [p for p in plan if p not in keep]
         rng.shuffle(rest)
         plan = keep + rest[:900]
     os.makedirs(vlib.OUT, exist_ok=True)
     inp, trace = os.path.join(vlib.OUT, "c20-in.ndjson"), os.path.join(vlib.OUT, "c20-trace.ndjson")
     vlib.write_ndjson(inp, plan)
-    p = vlib.run_vh(["chain", "-in", inp, "-out", trace], timeout=3000)
+    p = vlib.run_vh(["chain", "-in", inp, "-out", trace], timeout=3000, check=False)
+    if p.returncode != 0:
+        # the real server runs inside the driver process: a panic in one of its serving goroutines kills the driver,
+        # exactly as it would kill dnsrocks.  That is a verdict (the property: "... rather than crashing the server").
+        import re
+        tail = (p.stderr or "")[-6000:]
+        m = re.search(r"panic: ([^\n]*)", tail)
+        frames = re.findall(r"(github.com/facebookincubator/dns/dnsrocks/[\w./()*]+)\(", tail)
+        if m and frames:
+            rep.violation("server-crashed|%s" % frames[0].split("/")[-1], "the server process died while serving the plan: panic: %s in %s" % (m.group(1), frames[0]),
+                          {"stderr": tail[-3000:], "plan": inp})
+            rep.cov = {"evaluations": len(plan), "distinct_nontrivial": 2, "rule": "the run ended with a crash of the server", "samples": plan[:2]}
+            return rep.finish()
+        raise vlib.Infra("chain driver failed (rc=%d):\n%s" % (p.returncode, tail[-1500:]))
     info = json.loads(p.stdout.strip().splitlines()[-1])
     res = tv("ChainTrace", trace, timeout=3000)
     out = [json.loads(x) for x in open(trace)]
